@@ -162,20 +162,14 @@ def common_checks(fails, stats, d0, d1, sv_at, m_at, limits, bonds, cfg, s_rows,
     return dist2, tol2
 
 
-def check_mps(case):
-    fails, stats = [], {}
-    try:
-        mps = make_mps(case)
-    except Exception as e:
-        raise Skip("state construction failed: %s: %s" % (type(e).__name__, str(e)[:120]))
-    n = case["n"]
-    cfg = case["cfg"]
-    d0 = np.asarray(mps.todense()).ravel().copy()
+def chain_check(new, cfg, limits, fails, stats):
+    """`new`: a canonical chain with its compression settings installed; compresses it IN PLACE and checks the
+    result against the dense vector it represented before."""
+    n = len(new)
+    d0 = np.asarray(new.todense()).ravel().copy()
     n0 = np.linalg.norm(d0)
-    dims = [b.nbas for b in mps.model.basis]
-    before = list(mps.bond_dims)
-    new = mps.copy()
-    limits = install_config(new, cfg, n + 1)
+    dims = [b.nbas for b in new.model.basis]
+    before = list(new.bond_dims)
     to_right = bool(new.to_right)
     temp = cfg.get("temp")
     new, s_arr = new.compress(temp_m_trunc=temp, ret_s=True)
@@ -204,6 +198,17 @@ def check_mps(case):
         fails.append({"what": "norm identity: |psi|^2 - |psi'|^2 != dist^2", "dist2": dist2,
                       "loss": float(n0 ** 2 - np.linalg.norm(d1) ** 2)})
     stats.update({"before": before, "after": after, "to_right": to_right, "step_sum": step})
+
+
+def check_mps(case):
+    fails, stats = [], {}
+    try:
+        mps = make_mps(case)
+    except Exception as e:
+        raise Skip("state construction failed: %s: %s" % (type(e).__name__, str(e)[:120]))
+    new = mps.copy()
+    limits = install_config(new, case["cfg"], case["n"] + 1)
+    chain_check(new, case["cfg"], limits, fails, stats)
     return fails, stats
 
 
@@ -238,31 +243,29 @@ def subtree_basis(node):
     return res
 
 
-def check_ttns(case):
+def make_ttns(case):
     from renormalizer.tn.tree import TTNS
-    fails, stats = [], {}
     seed = int(case["seed"])
     np.random.seed(seed)
     parents = case["parents"]
     n = len(parents)
-    try:
-        basis, bl = build_tree(parents, case["qn"], case.get("nb", 3))
-        qntot = n // 2 if case["qn"] else 0
-        t = TTNS.random(basis, qntot, case["m_max"])
-        if case["complex"]:
-            o = TTNS.random(basis, qntot, case["m_max"])
-            t = t.to_complex().add(o.scale(0.7j))
-        t.canonicalise()
-        if case.get("scale"):
-            t = t.scale(case["scale"])
-    except Exception as e:
-        raise Skip("state construction failed: %s: %s" % (type(e).__name__, str(e)[:120]))
-    cfg = case["cfg"]
-    d0 = np.asarray(t.todense(bl)).copy()
+    basis, bl = build_tree(parents, case["qn"], case.get("nb", 3))
+    qntot = n // 2 if case["qn"] else 0
+    t = TTNS.random(basis, qntot, case["m_max"])
+    if case["complex"]:
+        o = TTNS.random(basis, qntot, case["m_max"])
+        t = t.to_complex().add(o.scale(0.7j))
+    t.canonicalise()
+    if case.get("scale"):
+        t = t.scale(case["scale"])
+    return t, basis, bl
+
+
+def tree_check(new, basis, bl, cfg, limits, fails, stats):
+    """`new`: a canonical TTNS with its compression settings installed; compressed IN PLACE and checked"""
+    d0 = np.asarray(new.todense(bl)).copy()
     n0 = np.linalg.norm(d0)
-    before = list(t.bond_dims)
-    new = t.copy()
-    limits = install_config(new, cfg, n + 1)
+    before = list(new.bond_dims)
     new, s_arr = new.compress(temp_m_trunc=cfg.get("temp"), ret_s=True)
     d1 = np.asarray(new.todense(bl))
     after = list(new.bond_dims)
@@ -285,6 +288,108 @@ def check_ttns(case):
     # NOT a requirement on trees (the tree sweep is not a nested sequence of projections); recorded only
     stats.update({"before": before, "after": after, "step_sum": step,
                   "identity_gap": float(abs(dist2 - step))})
+
+
+def check_ttns(case):
+    fails, stats = [], {}
+    try:
+        t, basis, bl = make_ttns(case)
+    except Exception as e:
+        raise Skip("state construction failed: %s: %s" % (type(e).__name__, str(e)[:120]))
+    new = t.copy()
+    limits = install_config(new, case["cfg"], len(case["parents"]) + 1)
+    tree_check(new, basis, bl, case["cfg"], limits, fails, stats)
+    return fails, stats
+
+
+# ----------------------------------------------------------------------------------------- histories
+def config_snapshot(cc):
+    md = cc.max_dims
+    return {"id": id(cc), "criteria": str(cc.criteria), "threshold": float(cc.threshold), "M": int(cc.bond_dim_max_value),
+            "max_dims": None if md is None else [int(x) for x in np.asarray(md)]}
+
+
+def check_history(case):
+    """One base state (never compressed itself); several descendants (copy / add / apply -- all go through
+    metacopy -> CompressConfig.copy) are compressed one after the other in this process, each with ITS OWN limit,
+    set by attribute on the descendant's config or by assigning a fresh CompressConfig.  Every result must obey its
+    own limit and the error bounds; the base (state and configuration) must be unchanged at the end."""
+    from renormalizer.utils import CompressConfig, CompressCriteria
+    fails, stats = [], {"ops": []}
+    b = case["base"]
+    tree = b["kind"] == "ttns"
+    try:
+        if tree:
+            base, basis, bl = make_ttns(b)
+        else:
+            base = make_mps(b)
+    except Exception as e:
+        raise Skip("state construction failed: %s: %s" % (type(e).__name__, str(e)[:120]))
+    dense = (lambda x: np.asarray(x.todense(bl)).ravel()) if tree else (lambda x: np.asarray(x.todense()).ravel())
+    base_dense = dense(base).copy()
+    snap0 = config_snapshot(base.compress_config)
+    nb = (len(b["parents"]) if tree else b["n"]) + 1
+    for k, op in enumerate(case["ops"]):
+        try:
+            if op["derive"] == "copy":
+                d = base.copy()
+            elif op["derive"] == "add":
+                d = base.add(base.scale(0.5))
+                d.canonicalise()
+                if not tree and d.to_right != base.to_right:
+                    d.canonicalise()
+            elif op["derive"] == "apply":
+                from renormalizer import Op
+
+                def diag_op(bs):          # a quantum-number conserving one-site operator for this basis set
+                    name = type(bs).__name__
+                    sym = {"BasisHalfSpin": "sigma_z", "BasisSHO": r"b^\dagger b", "BasisSimpleElectron": r"a^\dagger a"}[name]
+                    return Op(sym, bs.dofs[0] if isinstance(bs.dofs, list) else bs.dof)
+                if tree:
+                    from renormalizer.tn.tree import TTNO
+                    d = TTNO(basis, [diag_op(bl[0]), diag_op(bl[-1])]).apply(base)
+                else:
+                    from renormalizer import Mpo
+                    d = Mpo(base.model, diag_op(base.model.basis[0]) + diag_op(base.model.basis[-1])).apply(base)
+                d.canonicalise()
+                if not tree and d.to_right != base.to_right:
+                    d.canonicalise()
+            else:
+                raise ValueError(op["derive"])
+        except Exception as e:
+            raise Skip("descendant construction failed: %s: %s" % (type(e).__name__, str(e)[:120]))
+        crit = getattr(CompressCriteria, op["crit"])
+        if op["how"] == "attr":
+            # the idiom of the package's own tests
+            d.compress_config.criteria = crit
+            d.compress_config.bond_dim_max_value = op["M"]
+            d.compress_config.threshold = op["thr"]
+        else:
+            d.compress_config = CompressConfig(crit, threshold=op["thr"], max_bonddim=op["M"])
+        cfg = {"crit": op["crit"], "thr": op["thr"], "M": op["M"]}
+        limits = None if op["crit"] == "threshold" else [op["M"]] * nb
+        f, st = [], {}
+        try:
+            if tree:
+                tree_check(d, basis, bl, cfg, limits, f, st)
+            else:
+                chain_check(d, cfg, limits, f, st)
+        except Exception as e:
+            f.append({"what": "exception", "type": type(e).__name__, "msg": str(e)[:200]})
+        for x in f:
+            x["op_index"] = k
+            x["op"] = op
+            x["what"] = "history: " + x["what"]
+        fails += f
+        stats["ops"].append({"op": op, "after": st.get("after"), "truncating": st.get("truncating")})
+        if d.compress_config is base.compress_config:
+            fails.append({"what": "history: descendant shares the configuration object of the base", "op_index": k, "op": op})
+    snap1 = config_snapshot(base.compress_config)
+    if snap1 != snap0:
+        fails.append({"what": "history: configuration of the source state changed", "before": snap0, "after": snap1})
+    if np.linalg.norm(dense(base) - base_dense) > 1e-12 * max(1.0, np.linalg.norm(base_dense)):
+        fails.append({"what": "history: source state changed"})
+    stats["truncating"] = any(o["truncating"] for o in stats["ops"])
     return fails, stats
 
 
@@ -294,7 +399,7 @@ class Skip(Exception):
 
 def run_case(case):
     try:
-        fails, stats = (check_mps if case["kind"] == "mps" else check_ttns)(case)
+        fails, stats = {"mps": check_mps, "ttns": check_ttns, "history": check_history}[case["kind"]](case)
     except Skip as e:
         return {"case": case, "ok": True, "skipped": str(e), "fails": [], "stats": {}}
     except Exception as e:      # an exception on an accepted input is a failure of the property
